@@ -4,11 +4,13 @@ import (
 	"bytes"
 	"encoding/json"
 	"fmt"
+	"io"
 	"os"
 	"os/exec"
 	"path/filepath"
 	"strings"
 	"syscall"
+	"time"
 
 	"verif/mc/drive"
 	"verif/mc/fw"
@@ -62,6 +64,9 @@ const (
 	c14Missing
 	c14Dir
 	c14SameTwice
+	c14DevStdin // the path /dev/stdin as a named file
+	c14Fifo     // a named pipe that a writer fills after the binary has opened it
+	c14Proc     // a file whose size the file system reports as 0 although it has content
 	c14NSource
 )
 
@@ -121,6 +126,35 @@ func c14Exec(argv []string, stdin string) c14Result {
 	return r
 }
 
+// c14ExecFifo runs the binary with a named pipe among its arguments: a writer opens the pipe (which blocks until the binary
+// opens it for reading), writes the bytes and closes. If the binary ends without ever opening the pipe, the writer is released
+// by opening the pipe for reading here.
+func c14ExecFifo(c *fw.Ctx, argv []string, fifo, data string) c14Result {
+	done := make(chan struct{})
+	go func() {
+		defer close(done)
+		w, err := os.OpenFile(fifo, os.O_WRONLY, 0)
+		if err != nil {
+			return
+		}
+		io.WriteString(w, data)
+		w.Close()
+	}()
+	cmd := exec.Command(fw.JqawkBin(), argv...)
+	so, se, exit, timedOut := runChild(c, cmd, "", 60*time.Second)
+	// release a writer that is still waiting for a reader
+	if r, err := os.OpenFile(fifo, os.O_RDONLY|syscall.O_NONBLOCK, 0); err == nil {
+		<-done
+		r.Close()
+	} else {
+		<-done
+	}
+	if timedOut {
+		return c14Result{Stdout: so, Stderr: se + "\nverif: stopped after 60 s", Exit: 1}
+	}
+	return c14Result{Stdout: so, Stderr: se, Exit: exit}
+}
+
 type errReader struct {
 	err   error
 	reads *int
@@ -168,6 +202,7 @@ func c14Check(c *fw.Ctx, s c14Spec, al c14Alpha) *fw.Violation {
 	os.WriteFile(in1, []byte(input), 0o644)
 	os.WriteFile(in2, []byte("[7]"), 0o644)
 	stdin := ""
+	fifoPath := ""
 	var libFiles []drive.File
 	refusedEarly := false // the front end refuses before anything runs
 	dirReads := 0
@@ -192,13 +227,41 @@ func c14Check(c *fw.Ctx, s c14Spec, al c14Alpha) *fw.Violation {
 		argv = append(argv, in1, in1)
 		libFiles = []drive.File{{Name: in1, Data: input}, {Name: in1, Data: input}}
 		nfiles = 2
+	case c14DevStdin:
+		stdin = input
+		argv = append(argv, "/dev/stdin")
+		libFiles = []drive.File{{Name: "/dev/stdin", Data: input}}
+	case c14Fifo:
+		fifoPath = filepath.Join(dir, "in.fifo")
+		os.Remove(fifoPath)
+		if err := syscall.Mkfifo(fifoPath, 0o600); err != nil {
+			c.Note("named pipes cannot be created here: source skipped", 1)
+			return nil
+		}
+		defer os.Remove(fifoPath)
+		argv = append(argv, fifoPath)
+		libFiles = []drive.File{{Name: fifoPath, Data: input}}
+	case c14Proc:
+		pp := "/proc/sys/kernel/pid_max" // one JSON number and a newline; stat reports size 0
+		b, err := os.ReadFile(pp)
+		if err != nil || s.Input != 0 {
+			return nil
+		}
+		input = string(b)
+		argv = append(argv, pp)
+		libFiles = []drive.File{{Name: pp, Data: input}}
 	case c14Dir:
 		ad := filepath.Join(dir, "adir")
 		argv = append(argv, ad)
 		libFiles = []drive.File{{Name: ad, Reader: errReader{syscall.EISDIR, &dirReads}}}
 	}
 	s.Argv = argv
-	got := c14Exec(argv, stdin)
+	var got c14Result
+	if fifoPath != "" {
+		got = c14ExecFifo(c, argv, fifoPath, input)
+	} else {
+		got = c14Exec(argv, stdin)
+	}
 	c.Evals++
 	c.Traces++
 	c.Transitions++
@@ -322,7 +385,7 @@ func c14SelectorConcat(c *fw.Ctx, prog, input, e1, e2 string) *fw.Violation {
 func init() {
 	fw.Register(&fw.Prop{
 		ID: "C14",
-		Rule: "the full product {inline, -f} x {stdin, one file, two files, a missing file, a directory as file, the same file twice} x {no selector, one, two, a failing one} x {no -o, -o -, -o FILE, -o into a missing directory} x 14 programs (silent, printing, mutating $, BEGINFILE replacing $, exit, syntax error, runtime error before / after output, $file, END, exit in BEGIN, state across values, CR LF / lone CR / LF CR inside literals and between statements) x 7 inputs (array, object, scalar, two values, empty, malformed, strings full of % directives), on the real binary; " +
+		Rule: "the full product {inline, -f} x {stdin, one file, two files, a missing file, a directory as file, the same file twice, /dev/stdin as a named file, a named pipe filled after it is opened, a /proc file whose reported size is 0} x {no selector, one, two, a failing one} x {no -o, -o -, -o FILE, -o into a missing directory} x 14 programs (silent, printing, mutating $, BEGINFILE replacing $, exit, syntax error, runtime error before / after output, $file, END, exit in BEGIN, state across values, CR LF / lone CR / LF CR inside literals and between statements) x 7 inputs (array, object, scalar, two values, empty, malformed, strings full of % directives), on the real binary; " +
 			"oracle: the in-process library run of the same program, selectors and inputs (stdout, outcome, JSON output) plus the wrapper laws (exit 0 iff success and nothing refused, diagnostic on stderr otherwise, no stack trace, -o FILE == bytes of -o -, a missing file refused before any output); " +
 			"-r E1 -r E2 == -r E1 followed by -r E2 for 4 stateless (mutating) programs x 2 documents x all ordered pairs of 5 overlapping selectors; and -r E == BEGINFILE { $ = E } for every program without BEGINFILE/ENDFILE x every input x 6 selectors; thorough doubles the three alphabets; a state is (source, -o mode, selector list, -f, library outcome); non-trivial = same",
 		Plan:  func(t fw.Tier) int { return 2 * c14NSource * c14NOut },
